@@ -12,7 +12,7 @@ ids=("$@"); [ ${#ids[@]} -eq 0 ] && ids=($(ls seeded))
 miss=0
 for id in "${ids[@]}"; do
   prop=${id%%-*}
-  git -C "$WT" checkout -q -- .
+  git -C "$WT" reset -q --hard HEAD
   if ! git -C "$WT" apply "$PWD/seeded/$id/patch.diff" 2>/dev/null; then
     if ! git -C "$WT" apply --3way "$PWD/seeded/$id/patch.diff" >/dev/null 2>&1; then echo "$id: PATCH-DOES-NOT-APPLY"; continue; fi
   fi
